@@ -339,6 +339,43 @@ def extent_rules(chk, cr, q, ev, resolver, helper=False):
                     desc = f"lower from {lo_k}, upper from {hi_k}"
                 chk.ob("R03.2", CR, "Crystal." + q, "slab is asked for (lower = floor-derived, upper = ceil-derived) cells", ok,
                        node=e.node, fingerprint="slab-bounds", found=desc)
+    if chk.want("R03.2"):
+        # the cell range is computed around the very points the balls are centred on: a centre listed outside the cell (x = -0.2, 3.4)
+        # wrapped for the range but not for the query looks for neighbours where no cells were laid out
+        def strip_idx(t):
+            a = t.as_atom()
+            while a and a[0] == "sub" and len(a[2]) == 1 and a[2][0].as_atom() and a[2][0].as_atom()[0] == "lv":
+                t = a[1]
+                a = t.as_atom()
+            return t
+
+        def point_id(t, frac):
+            """('frac' | 'cart', array) the point comes from, read through to_fractional / to_cartesian and loop indexing"""
+            t = strip_idx(t)
+            a = t.as_atom()
+            if a and a[0] == "call" and call_name(a) in (".to_fractional", ".to_cartesian") and a[2]:
+                return ("cart" if call_name(a) == ".to_fractional" else "frac"), strip_idx(a[2][0])
+            return ("frac" if frac else "cart"), t
+        balls = [e.extra["args"][0] for e in ev.events if e.kind == "call" and call_name(e.value.as_atom() or ()) == ".query_ball_point"
+                 and e.extra.get("args") and "KDTree" in e.target.key()]
+        centres = {point_id(pp, True) for kind, a, (E, pp, ratom), e in found if kind == "ceil"}
+        if balls and centres:
+            ok_same = True
+            desc = []
+            for b in balls:
+                bid = point_id(b, False)
+                hit = False
+                for cid in centres:
+                    if cid[0] != bid[0]:
+                        continue
+                    # the same array, or a selection of its rows (a functional group of the molecule the range was taken over)
+                    if cid[1].key() == bid[1].key() or (bid[1].as_atom() and bid[1].as_atom()[0] == "sub" and bid[1].as_atom()[1].key() == cid[1].key()):
+                        hit = True
+                if not hit:
+                    ok_same = False
+                    desc.append(f"balls around {bid[0]}:{str(bid[1])[:60]}, cells around {[c[0] + ':' + str(c[1])[:60] for c in centres]}")
+            chk.ob("R03.2", CR, "Crystal." + q, "the cell range is taken around the same points the balls are centred on (no wrapping / shifting of the "
+                   "centres for one and not the other)", ok_same, fingerprint="same-centres", found=desc[:2] or None)
     if chk.want("R03.3"):
         # KD-tree built on Cartesian positions and queried with Cartesian points
         for e in ev.events:
